@@ -2,7 +2,7 @@
    call_builtin (Builtins.v) is the sequence model itself, extracted and compared with the crate call by call in both index-base
    configurations; the theorems below are the coherence facts of the statement over the model's own search / slicing functions. *)
 Require Import ZArith NArith Bool List Arith. Import ListNotations.
-Require Import F64 Dec Types Generic Lang Builtins BuiltinFacts TimeFacts IndexFacts GenBuiltins.
+Require Import F64 Dec Types Generic Lang Builtins BuiltinFacts TimeFacts IndexFacts SeqLaws GenBuiltins.
 
 (* find returns a position where the needle occurs, the first such position, and fails only when there is none - every code point list *)
 Theorem C15_find_sound : forall n s i, find_sub n s = Some i -> firstn (length n) (skipn i s) = n /\ (i + length n <= length s)%nat.
@@ -40,3 +40,39 @@ Print Assumptions C15_copy_find_builtin.
 Theorem C15_offsets_are_the_codes : gen_string_offset_default = 1%N /\ gen_string_offset_zero_based = 0%N.
 Proof. split; reflexivity. Qed.
 Print Assumptions C15_find_sound. Print Assumptions C15_at_enumerates.
+
+(* split, replace and count are one decomposition of the text at the leftmost non-overlapping occurrences of a non-empty needle: joining the pieces of split with the separator gives the text back;
+   replace is split-then-join with the replacement; count is the number of cuts; a text without the needle is left alone - every text, needle and replacement *)
+Theorem C15_split_join : forall s sep, sep <> [] -> join sep (split_str s sep) = s.
+Proof. exact split_join. Qed.
+Theorem C15_replace_is_split_join : forall n t s, n <> [] -> replace_sub (S (length s)) n t s = join t (split_str s n).
+Proof. exact replace_is_join_split. Qed.
+Theorem C15_count_is_cuts : forall n s, n <> [] -> length (split_str s n) = S (count_sub (S (length s)) n s).
+Proof. exact count_is_cuts. Qed.
+Theorem C15_no_occurrence : forall n t s, n <> [] -> find_sub n s = None -> replace_sub (S (length s)) n t s = s /\ count_sub (S (length s)) n s = 0%nat.
+Proof. exact replace_without_occurrence. Qed.
+Theorem C15_split_replace_count_builtins : forall off s n t, n <> [] ->
+  call_builtin off split_name [VStr s; VStr n] = BOk (vstrs (split_str s n)) /\
+  call_builtin off replace_name [VStr s; VStr n; VStr t] = BOk (VStr (join t (split_str s n))) /\
+  call_builtin off count_name [VStr s; VStr n] = BOk (vnat (length (split_str s n) - 1)).
+Proof. intros off s n t H. split; [apply split_builtin | split; [apply replace_builtin, H | apply count_builtin, H]]. Qed.
+Example C15_split_example : split_str [97;44;44;98]%N [44]%N = [[97]; []; [98]]%N /\ join [45]%N (split_str [97;44;44;98]%N [44]%N) = [97;45;45;98]%N.
+Proof. split; reflexivity. Qed.
+(* trim removes exactly the white margins: what goes is white, what stays neither starts nor ends white, and trimming again changes nothing *)
+Theorem C15_trim_left_spec : forall s, exists w, s = w ++ trim_l s /\ forallb is_white w = true /\ match trim_l s with c :: _ => is_white c = false | [] => True end.
+Proof. exact trim_left_spec. Qed.
+Theorem C15_trim_right_spec : forall s, exists w, s = trim_r s ++ w /\ forallb is_white w = true /\ match rev (trim_r s) with c :: _ => is_white c = false | [] => True end.
+Proof. exact trim_right_spec. Qed.
+Theorem C15_trim_ends : forall s, match trim_b s with c :: _ => is_white c = false | [] => True end /\ match rev (trim_b s) with c :: _ => is_white c = false | [] => True end.
+Proof. exact trim_ends. Qed.
+Theorem C15_trim_idempotent : forall s, trim_b (trim_b s) = trim_b s /\ trim_l (trim_l s) = trim_l s /\ trim_r (trim_r s) = trim_r s.
+Proof. exact trim_idempotent. Qed.
+(* unique: a subsequence of its input (first occurrences, in order); every member of the input is in it or equal to a member of it; no kept member is equal to an earlier kept one *)
+Theorem C15_unique_spec : forall l, (forall x, In x (uniq [] l) -> In x l) /\ (forall x, In x l -> In x (uniq [] l) \/ existsb (fun k => veq x k) (uniq [] l) = true)
+  /\ (forall r1 b r2, uniq [] l = r1 ++ b :: r2 -> existsb (fun k => veq b k) r1 = false).
+Proof. exact unique_spec. Qed.
+Theorem C15_unique_subsequence : forall l, subseq (uniq [] l) l.
+Proof. intros l. apply unique_subsequence. Qed.
+Theorem C15_trim_unique_builtins : forall off s l, call_builtin off trim_name [VStr s] = BOk (VStr (trim_b s)) /\ call_builtin off unique_name [VArr l] = BOk (VArr (uniq [] l)).
+Proof. intros. split; reflexivity. Qed.
+Print Assumptions C15_split_join. Print Assumptions C15_replace_is_split_join. Print Assumptions C15_trim_ends. Print Assumptions C15_unique_spec. Print Assumptions C15_split_replace_count_builtins.
